@@ -84,7 +84,10 @@ class Model:
         return d
 
     def callable_param(self, ex, fv):
-        return ex.contract.get("callables", {}).get(ex.describe(fv), {})
+        d = ex.contract.get("callables", {})
+        name = ex.describe(fv)
+        # a callback PARAMETER is the constant `p_<name>`; the contract names it as the code does
+        return d.get(name) or d.get(name[2:] if name.startswith("p_") else name, {})
 
     def ctor_fields(self, clsname, args, kwargs):
         d = getattr(self.decl, "CTOR_FIELDS", {}).get(clsname)
